@@ -59,6 +59,9 @@ func (u Universe) Text() string {
 func (u Universe) Roots() [][2]string {
 	var out [][2]string
 	for _, p := range u.Pkgs {
+		if strings.Contains(p.Name, ">") {
+			continue // a bundled (derived) package is not a root
+		}
 		for _, v := range p.Versions {
 			out = append(out, [2]string{p.Name, v.Version})
 		}
@@ -88,6 +91,10 @@ var npmRanges = []string{"^1.0.0", "~1.1.0", ">=1.0.0 <2.0.0", "1.x", "*", "1.0.
 
 type NPMOpts struct {
 	Aliases bool
+	// Bundles gives some versions a bundled copy of one of their dependencies
+	// (a derived package "pkg>version>dep" with DerivedFrom, required by the
+	// bundling version next to a bundle-scoped requirement on the dependency).
+	Bundles bool
 	// Ties adds versions that differ only in build metadata or a leading v:
 	// equal precedence, different strings (insertion-order sensitivity of
 	// sorting shows only then).
@@ -205,6 +212,37 @@ func NPMUniverse(o NPMOpts) *rapid.Generator[Universe] {
 			}
 			inheritReqs(t, &p)
 			u.Pkgs = append(u.Pkgs, p)
+		}
+		if o.Bundles {
+			var derived []UPkg
+			for pi := range u.Pkgs {
+				p := &u.Pkgs[pi]
+				for vi := range p.Versions {
+					v := &p.Versions[vi]
+					if rapid.IntRange(0, 5).Draw(t, "bundle") != 0 {
+						continue
+					}
+					ti := rapid.IntRange(0, n-1).Draw(t, "bundletarget")
+					if ti == pi {
+						continue
+					}
+					q := names[ti]
+					w := rapid.SampledFrom(vlists[ti]).Draw(t, "bundleversion")
+					dn := p.Name + ">" + v.Version + ">" + q
+					// the bundling version names the dependency in bundleDependencies
+					// (a keyed attribute on the requirement) and requires the copy
+					kept := v.Reqs[:0:0]
+					for _, r := range v.Reqs {
+						if r.Name != q {
+							kept = append(kept, r)
+						}
+					}
+					typ := rapid.SampledFrom([]string{"Scope bundled", "Scope bundled", "KnownAs bd" + fmt.Sprint(pi) + " Scope bundled"}).Draw(t, "bundletype")
+					v.Reqs = append(kept, UReq{Name: q, Req: w, Type: typ}, UReq{Name: dn, Req: w})
+					derived = append(derived, UPkg{Name: dn, Versions: []UVer{{Version: w, Attrs: []string{"DerivedFrom " + q}}}})
+				}
+			}
+			u.Pkgs = append(u.Pkgs, derived...)
 		}
 		return u
 	})
